@@ -390,8 +390,8 @@ func (h *hist) plainTable(schema *g9blib.MSchema, name string) *g9blib.Table {
 		// MySQL needs (and otherwise silently adds) an index led by the FK column: declare one
 		have := false
 		for _, ix := range t.Indexes {
-			if len(ix.Cols) > 0 && ix.Cols[0].Col == fk.Cols[0] && ix.Cols[0].Prefix == 0 {
-				have = true
+			if len(ix.Cols) > 0 && ix.Cols[0].Col == fk.Cols[0] && noPrefix(ix) {
+				have = true // (whether an index with a prefixed later part also serves the FK is not clear-cut: not relied on)
 			}
 		}
 		if pk := t.PKCols(); len(pk) > 0 && pk[0] == fk.Cols[0] {
@@ -402,6 +402,15 @@ func (h *hist) plainTable(schema *g9blib.MSchema, name string) *g9blib.Table {
 		}
 	}
 	return t
+}
+
+func noPrefix(ix *g9blib.Index) bool {
+	for _, p := range ix.Cols {
+		if p.Prefix > 0 {
+			return false
+		}
+	}
+	return true
 }
 
 func normCol(c *g9blib.Col) {
@@ -742,7 +751,7 @@ func (h *hist) nextStep() *step {
 			}
 			var c *g9blib.Col
 			for _, ix := range t.Indexes {
-				if x := t.Col(ix.Cols[0].Col); x != nil && x.T.SQL == "INT" && ix.Cols[0].Prefix == 0 {
+				if x := t.Col(ix.Cols[0].Col); x != nil && x.T.SQL == "INT" && noPrefix(ix) {
 					c = x
 				}
 			}
